@@ -7,7 +7,7 @@ From Coq Require Import List Bool Arith NArith.
 From Coq.Strings Require Import Byte.
 From GI Require Import Lib.Bytes Txtar.Txtar
   TsRun.TsFs TsRun.TsState TsRun.TsCmds TsRun.TsRun TsRun.TsSpec TsRun.TsUpdate TsRun.TsUpdateFacts
-  TsRun.TsRerun TsRun.TsRerunFacts.
+  TsRun.TsRerun TsRun.TsRerunFacts TsRun.TsNamesFacts.
 Import ListNotations.
 
 Theorem C16_update_names : forall a U a',
@@ -202,3 +202,50 @@ Print Assumptions C16_update_written_canonical.
 Theorem C16_update_keeps_untouched_bytes_refuted : ~ update_keeps_untouched_bytes_statement.
 Proof. exact update_keeps_untouched_bytes_refuted. Qed.
 Print Assumptions C16_update_keeps_untouched_bytes_refuted.
+
+(* scriptFiles: filled by setup with (expanded location inside the work directory -> entry name as
+   the archive spells it), never changed by a script line -- not by mv, cp, rm or symlink either *)
+Theorem C16_registered_at_expanded_location : forall cfg work env a p e,
+  assoc_get (s_files (fst (setup cfg work env a))) p = Some e ->
+  In e (map fst (files a)) /\ p = location work env e /\ beneath work p = true.
+Proof. exact setup_files_ok. Qed.
+Print Assumptions C16_registered_at_expanded_location.
+
+Theorem C16_script_files_fixed_by_line : forall cfg st line,
+  s_files (outcome_state (run_line cfg st line)) = s_files st.
+Proof. exact fil_run_line. Qed.
+Print Assumptions C16_script_files_fixed_by_line.
+
+Theorem C16_script_files_fixed : forall cfg ls n f st,
+  s_files (snd (fst (run_lines cfg ls n f st))) = s_files st.
+Proof. exact fil_run_lines. Qed.
+Print Assumptions C16_script_files_fixed.
+
+Theorem C16_tree_commands_keep_table : forall args st,
+  s_files (outcome_state (cmd_mv args st)) = s_files st
+  /\ s_files (outcome_state (cmd_cp args st)) = s_files st
+  /\ s_files (outcome_state (cmd_rm args st)) = s_files st
+  /\ s_files (outcome_state (cmd_symlink args st)) = s_files st.
+Proof. exact fil_tree_commands. Qed.
+Print Assumptions C16_tree_commands_keep_table.
+
+(* whatever the script does, an update is only ever recorded under the name of an archive entry as
+   written, by a comparison against the expanded location of that entry ... *)
+Theorem C16_only_entries_updated : forall cfg work env a e c,
+  assoc_get (s_updates (r_final (run_archive cfg work env a))) e = Some c ->
+  In e (map fst (files a))
+  /\ exists p, assoc_get (s_files (fst (setup cfg work env a))) p = Some e
+               /\ p = location work env e /\ beneath work p = true.
+Proof. exact only_entries_updated. Qed.
+Print Assumptions C16_only_entries_updated.
+
+(* ... and what a run writes is the archive with the same entry names in the same order and the
+   same script text *)
+Theorem C16_run_rewrites_named_entries_only : forall cfg work env file d,
+  f_change (run_file_full cfg work env file) = Rewritten d ->
+  exists a', apply_updates (parse file) (s_updates (r_final (run_file cfg work env file))) = Some a'
+    /\ d = format a'
+    /\ map fst (files a') = map fst (files (parse file))
+    /\ comment a' = comment (parse file).
+Proof. exact run_rewrites_named_entries_only. Qed.
+Print Assumptions C16_run_rewrites_named_entries_only.
